@@ -23,6 +23,12 @@ class Ctx:
             self._facts[config].cached = cached
         return self._facts[config]
 
+    def reload(self):
+        """re-register the real fact base (ids, promoted constants) after another Facts was loaded"""
+        for cfg, f in self._facts.items():
+            if cfg == 'default':
+                f.register()
+
     def tables(self):
         if self._tables is None:
             import tables
